@@ -3,6 +3,7 @@ package gnet
 import (
 	"net"
 
+	"golang.org/x/sync/errgroup"
 	"golang.org/x/sys/unix"
 
 	vk "github.com/panjf2000/gnet/v2/internal/vk"
@@ -119,6 +120,7 @@ func vNewWorld(et bool, chunk int) *vWorld {
 	h := &vHandler{ghost: make(map[*conn]*vGhost)}
 	opts := &Options{EdgeTriggeredIO: et, EdgeTriggeredIOChunk: chunk, ReadBufferCap: 0, WriteBufferCap: 0, Logger: vLogger{}}
 	eng := &engine{opts: opts, eventHandler: h, listeners: make(map[int]*listener)}
+	eng.concurrency.Group = new(errgroup.Group)
 	lb := new(roundRobinLoadBalancer)
 	eng.eventLoops = lb
 	el := &eventloop{engine: eng, eventHandler: h, listeners: make(map[int]*listener)}
